@@ -198,7 +198,10 @@ pub fn run(ctx: &Ctx) -> Result<(), String> {
         let want_pk = crypto::public_key(&seed);
         let mut online_keys = std::collections::BTreeSet::new();
         for restart in 0..4 {
-            let cfg = SrvCfg { batch_size: 2, seed, ..Default::default() };
+            // restarts 2 and 3 run with fault injection at its maximum: the deliberately invalid
+            // replies (shuffled tags, random SIG) still carry a CERT, and it is a certificate
+            let fault = if restart >= 2 { 50 } else { 0 };
+            let cfg = SrvCfg { batch_size: 2, seed, fault, ..Default::default() };
             // a few event histories per restart (all of them for the first two seeds)
             let n = al.len().pow(depth as u32);
             let stride = if si < 2 { 1 } else { 37 };
@@ -226,11 +229,13 @@ pub fn run(ctx: &Ctx) -> Result<(), String> {
                         let framed = reply.len() >= 12 && &reply[..8] == codec::FRAME_MAGIC;
                         let v = if framed { Version::Ietf13 } else { Version::Classic };
                         let payload = if framed { &reply[12..] } else { &reply[..] };
-                        let m = match codec::decode(payload) {
-                            Ok(m) => m,
-                            Err(_) => continue, // C02's concern
+                        // lenient parse: fault injection may have shuffled the tag order
+                        let fields = match codec::decode_lenient(payload) {
+                            Some(f) => f,
+                            None => continue, // C02's concern
                         };
-                        let (cert, srep) = match (m.get("CERT"), m.get("SREP")) {
+                        let get = |name: &str| fields.iter().find(|(t, _)| *t == codec::tag(name)).map(|(_, v)| v.as_slice());
+                        let (cert, srep) = match (get("CERT"), get("SREP")) {
                             (Some(c), Some(s)) => (c, s),
                             _ => continue,
                         };
@@ -250,7 +255,7 @@ pub fn run(ctx: &Ctx) -> Result<(), String> {
                                     }
                                 }
                             }
-                            Err(clause) => ctx.violation(&clause, "reply-cert", v.name(), json!({"kind":"restart","seed":hex(&seed),"restart":restart,"socket":s,"events":h.iter().map(|e| e.name()).collect::<Vec<_>>(),"cert":hex(cert)})),
+                            Err(clause) => ctx.violation(&clause, "reply-cert", &format!("{}{}", v.name(), if fault > 0 { "/fault-injection-on" } else { "" }), json!({"kind":"restart","seed":hex(&seed),"restart":restart,"fault_percentage":fault,"socket":s,"events":h.iter().map(|e| e.name()).collect::<Vec<_>>(),"cert":hex(cert)})),
                         }
                     }
                 }
@@ -266,7 +271,7 @@ pub fn run(ctx: &Ctx) -> Result<(), String> {
     ctx.cov("reply_certs_checked", json!(certs_seen.load(Relaxed)));
     ctx.cov("restart_seeds", json!(seeds.len()));
     ctx.cov("exhaustive", json!(true));
-    ctx.cov("rule", json!("key part: per seed of the structured alphabet (zero, ff, RFC 8032 vectors, single-bit, single-byte-value, seeded random) three constructions give public key == Ed25519(seed) (dalek direct, RFC 8032 anchored) and SRV == SHA-512(0xff||pk)[0..32]; all sequences of length <= L over {make_cert(classic), make_cert(ietf)} x {fresh online key, online key A again, online key B again} on ONE LongTermKey, each CERT = DELE{PUBK(the online key),MINT,MAXT} signed under that version's delegation context and NOT verifying under the other version's. Live part: per seed 4 restarts of a real in-process Server x event histories (C09 alphabet); the announced key equals the reference key; the CERT of every datagram emitted by either responder passes the same check and its window contains the reply's MIDP. Non-trivial = a cert sequence or an emitted reply's CERT."));
+    ctx.cov("rule", json!("key part: per seed of the structured alphabet (zero, ff, RFC 8032 vectors, single-bit, single-byte-value, seeded random) three constructions give public key == Ed25519(seed) (dalek direct, RFC 8032 anchored) and SRV == SHA-512(0xff||pk)[0..32]; all sequences of length <= L over {make_cert(classic), make_cert(ietf)} x {fresh online key, online key A again, online key B again} on ONE LongTermKey, each CERT = DELE{PUBK(the online key),MINT,MAXT} signed under that version's delegation context and NOT verifying under the other version's. Live part: per seed 4 restarts of a real in-process Server (two with fault_percentage 0, two with 50; replies parsed leniently so that deliberately invalid ones are examined too) x event histories (C09 alphabet); the announced key equals the reference key; the CERT of every datagram emitted by either responder passes the same check and its window contains the reply's MIDP. Non-trivial = a cert sequence or an emitted reply's CERT."));
     ctx.sample(json!({"kind":"certseq","mask":"0b0110","len":4,"versions":["classic","ietf13","ietf13","classic"]}));
     ctx.sample(json!({"kind":"restart","restarts":4,"events":["C0","I1","step"]}));
     ctx.assume("ed25519-dalek arithmetic trusted (RFC 8032 vectors); seeds are a structured alphabet, not all 2^256");
